@@ -1,6 +1,7 @@
 from common import COMMON_ASSUME
 
 PROP = dict(
+    technique='property-based testing: reference bit-vector model / API-level isolation oracle, sparse mapping for offsets around 2^32',
     # c11_bitstream.c includes c11_bitstream_huge.h (the "huge offset" class)
     harness=['c11_bitstream.c', 'c11_bitstream_u64.c', 'c11_bitstream_u32.c',
              'c11_bitstream_u16.c', 'c11_bitstream_u8.c'],
